@@ -89,18 +89,39 @@ func observe(r proxykit.Response) (string, []string) {
 	}
 	var probs []string
 	if t.K == 'a' {
-		parts := make([]string, len(t.A))
+		items := make([]string, len(t.A))
 		for i, m := range t.A {
 			s, p := itemCoq(m)
-			parts[i] = s
-			if p != "" {
+			items[i] = s
+			if p != "" && len(probs) < 5 {
 				probs = append(probs, fmt.Sprintf("batch reply member %d: %s", i, p))
 			}
 		}
 		if len(t.A) == 0 {
 			probs = append(probs, "reply is an empty array")
 		}
-		return fmt.Sprintf("(OArray %d [%s])", r.Status, strings.Join(parts, "; ")), probs
+		// run-length compression: (irep n item) chunks concatenated
+		var chunks []string
+		for i := 0; i < len(items); {
+			j := i + 1
+			for j < len(items) && items[j] == items[i] {
+				j++
+			}
+			if j-i >= 4 {
+				chunks = append(chunks, fmt.Sprintf("irep %d %s", j-i, items[i]))
+				i = j
+				continue
+			}
+			k := i
+			var lit []string
+			for k < len(items) && !(k+3 < len(items) && items[k] == items[k+1] && items[k] == items[k+2] && items[k] == items[k+3]) {
+				lit = append(lit, items[k])
+				k++
+			}
+			chunks = append(chunks, "["+strings.Join(lit, "; ")+"]")
+			i = k
+		}
+		return fmt.Sprintf("(OArray %d (concat [%s]))", r.Status, strings.Join(chunks, "; ")), probs
 	}
 	s, p := itemCoq(t)
 	if p != "" {
